@@ -14,7 +14,7 @@ use std::collections::BTreeSet;
 pub const NAMES: &[&str] = &[
     "a.rs", "b.RS", "c.rsx", "d.rs.bak", "e", "f.tar.rs", ".hidden.rs", "g.rs~", "rs", "sp ace.rs", "ünï.rs", "日本.rs", "h.Rs", "i.rs.", "j.txt", ".rs.swp", "k.r", "l.rss", "m.rsx.rs", "n.RSX",
 ];
-pub const DIRS: &[&str] = &["", "sub", "sub/deep", "sub/deep/er", "x.rs", "other", "sp ace", "sub/x.rs/in", "a/b/c/d/e/f/g/h/i/j", ".hidden_dir", "ünï/日本"];
+pub const DIRS: &[&str] = &["", "sub", "sub/deep", "sub/deep/er", "x.rs", "other", "sp ace", "sub/x.rs/in", "a/b/c/d/e/f/g/h/i/j", ".hidden_dir", "ünï/日本", "n1/n2/n3/n4/n5/n6/n7/n8/n9/n10/n11/n12/n13/n14/n15/n16/n17/n18/n19/n20/n21/n22/n23/n24/n25/n26/n27/n28/n29/n30/n31/n32/n33/n34/n35/n36/n37/n38/n39/n40"];
 
 #[derive(Clone, Debug, PartialEq, Eq, Hash, Serialize, Deserialize)]
 pub enum Entry15
@@ -504,7 +504,7 @@ pub fn run(env: &Env, rec: &Recorder) -> (String, Vec<&'static str>)
 {
     pbt(env, rec, "layouts", env.cases(4000, 60_000), &strategy, &check);
     (
-        "directory layouts: up to 13 entries over 8 directory shapes (nesting <= 4, a directory named x.rs, names with spaces) x 20 file names (look-alike extensions .RS .rsx .rs.bak .rs~ .Rs 'rs' none, hidden, unicode, double extensions), symlinks to files and directories inside and outside the source dir, in-scope files with a second hard link outside the source dir, a foreign Breadlog.lock in a directory below the source dir, canary files outside the source dir and in a decoy src/ under the invocation directory; extension lists omitted/[rs]/[rs,rsx]/[RS]/[txt]/[rsx]/[rs, empty string]/[empty string]; one edit run in eight with TMPDIR really on another filesystem (then only 'nothing out of scope changes' is judged); source_dir as src, ./src, sub/../src, src/, ./src/., absolute, or `proj/src` below a configuration directory itself named `proj` (with a decoy src/ that a cwd-relative resolution would hit); configuration file in the project root or in a sub-directory (source_dir then contains `..`, with a look-alike src/ next to the configuration); invocation from the project dir, its parent, an unrelated dir; config path relative or absolute; both modes, both styles. Every regular file holds one statement lacking a reference. Oracle: independent scope rule; edit modifies exactly the in-scope set (one insertion each), everything else byte-identical, symlinks unchanged, Breadlog.lock only next to the config; --check scans and reports exactly the in-scope set. Non-trivial = distinct layout with a look-alike or symlink and an in-scope file at depth >= 2, or invoked from another directory".to_string(),
+        "directory layouts: up to 13 entries over 12 directory shapes (nesting up to 40, a directory named x.rs, names with spaces) x 20 file names (look-alike extensions .RS .rsx .rs.bak .rs~ .Rs 'rs' none, hidden, unicode, double extensions), symlinks to files and directories inside and outside the source dir, in-scope files with a second hard link outside the source dir, a foreign Breadlog.lock in a directory below the source dir, canary files outside the source dir and in a decoy src/ under the invocation directory; extension lists omitted/[rs]/[rs,rsx]/[RS]/[txt]/[rsx]/[rs, empty string]/[empty string]; one edit run in eight with TMPDIR really on another filesystem (then only 'nothing out of scope changes' is judged); source_dir as src, ./src, sub/../src, src/, ./src/., absolute, or `proj/src` below a configuration directory itself named `proj` (with a decoy src/ that a cwd-relative resolution would hit); configuration file in the project root or in a sub-directory (source_dir then contains `..`, with a look-alike src/ next to the configuration); invocation from the project dir, its parent, an unrelated dir; config path relative or absolute; both modes, both styles. Every regular file holds one statement lacking a reference. Oracle: independent scope rule; edit modifies exactly the in-scope set (one insertion each), everything else byte-identical, symlinks unchanged, Breadlog.lock only next to the config; --check scans and reports exactly the in-scope set. Non-trivial = distinct layout with a look-alike or symlink and an in-scope file at depth >= 2, or invoked from another directory".to_string(),
         vec!["the source dir itself being a symlink, non-UTF-8 file names and a file literally named .rs are not generated (the statement does not settle them)"],
     )
 }
